@@ -240,4 +240,20 @@ theorem est3_core (n o p S v u2 U' qh q' q : Nat)
       rw [e1, e2] at h1
       exact Nat.lt_of_mul_lt_mul_right h1
 
+theorem qh_bounds (v V' q r u2 : Nat) (hV : V' = v / 2 ^ 64) (hq : q * u2 + r = V') (hr : r < u2) :
+    q * (2 ^ 64 * u2) ≤ v ∧ v < (q + 1) * (2 ^ 64 * u2) := by
+  have h1 := Nat.div_mul_le_self v (2 ^ 64)
+  have h2 := Nat.lt_mul_div_succ v (Nat.two_pow_pos 64)
+  rw [← hV] at h1 h2
+  subst hq
+  constructor <;> nlinarith
+
+theorem test_top (v V' v0 q r u2 u1 P : Nat) (hV : V' = v / 2 ^ 64) (hv0 : v0 = v % 2 ^ 64)
+    (hq : q * u2 + r = V') (hP : P = q * u1) :
+    (P > r * 2 ^ 64 + v0 ↔ q * (u2 * 2 ^ 64 + u1) > v) := by
+  have := Nat.div_add_mod v (2 ^ 64)
+  rw [← hV, ← hv0] at this
+  subst hq hP
+  constructor <;> intro h <;> nlinarith
+
 end Knuth
